@@ -154,7 +154,7 @@ class Engine:
         pe = parent.exp_points if parent else None
         pre_explored = parent_explored
         if parent is not None and pe is None and bool(sampler.explored) and not pre_explored:
-            single = action[0] in ('step', 'raise', 'runarg') or (
+            single = action[0] in ('step', 'raise', 'runarg', 'sched') or (
                 action[0] == 'tick' and action[1] == 2)
             pe = st.evald if single else None
         st.exp_points = pe
@@ -250,7 +250,7 @@ class Engine:
             ctx['new_points'] = newpts
             ctx['dup_points'] = (len(set(newpts)) != len(newpts)) or bool(st.evald & frozenset(newpts))
             terminal = (ret is not None and bool(ret)) and kind in ('step', 'run2', 'finish', 'raise', 'tick', 'cap',
-                                                  'runarg')
+                                                  'runarg', 'sched')
             new = self.capture(post, st, action, terminal=terminal, evald=evald, target=target,
                                parent_explored=bool(pre.explored))
         ctx['new'] = new
@@ -292,10 +292,10 @@ class Engine:
             s.discard_exploration = not bool(s.discard_exploration)
             return None, s, target
         if kind == 'sched':
-            # choose the completion order of the likelihood pool for the next map call
+            # one batch whose likelihood-pool tasks complete in the given (deviating) order
             pool = s.pool_l.pool
             pool.schedule = {pool.n_map: action[1]}
-            return None, s, target
+            return s.run(**A, n_like_max=s.n_like + 1), s, target
         if kind == 'raise':
             target = (action[1], action[2])
             A = scn.run_args(n_eff=target[0], n_shell=target[1])
